@@ -9,7 +9,7 @@ from ._meta import M, COMMON_NOTE
 
 META = dict(M["C17"])
 META.update(
-    level="proof",
+    level="other",
     technique="contracts on the real HeaderItem.__reduce__ and HeaderItem.__init__ discharged by z3; reconstruction lemma over the two contracts under the documented pickle/copy protocol; all protocols on corpus and generated objects as bounded stand-in",
     level_text="Proved: __reduce__ returns (class, (original mnemonic, unit, value, descr, data), {'mnemonic': session name}); __init__ stores exactly its arguments and derives the session name from the original; hence (lemma) an object rebuilt as cls(*args) "
                "followed by __dict__.update(state) has the same original mnemonic, session mnemonic, unit, value, descr and data as the source - including duplicated (suffixed) and blank mnemonics. "
